@@ -17,6 +17,8 @@ RULE = ("Generated scripted value sequences (families: monotone, oscillating, co
         "sequence: at each checked epoch stop iff at least p+1 evaluations exist and dev(L[-1-p], L[-1]) < tol. fit must end at "
         "exactly that epoch (event trace, last_epoch, stop_training) or run to completion. Non-trivial = the rule fires strictly "
         "after the first admissible check, or never, with patience >= 1 (and periods different in part of the cases).")
+RULE_EXT = ('Extended as built: the recorded value the evaluator actually stored (torch.var_mean for variance) feeds the reference, two rounds with clear_history in between, evaluator given as metric or observable, default criterion, construction-time validation.')
+RULE = RULE + " " + RULE_EXT
 ASSUMPTIONS = ["comparisons whose reference value (relative) or standard deviation (variance) is exactly 0, and comparisons within 1e-9 relative of the "
                "tolerance, are undefined/borderline: the run is cut just before the first such check (counted, label 'truncated')",
                "evaluator listed before the stopper (the documented ordering)"]
